@@ -37,10 +37,10 @@ def run(res, tier, seed):
     cmds = []; tfs = []; kinds = []
     for k, (N, mask, work) in enumerate(once):
         tf = os.path.join(vlib.BUILD, 'traces', 'c19-once-%d-%d.ndjson' % (os.getpid(), k)); tfs.append(tf); kinds.append('once')
-        cmds.append([exe, 'once', tf, str(n), str(seed * 7001 + k * 101), str(N), str(mask), str(work)])
+        cmds.append([exe, 'once', tf, str(n if N <= 4 else max(60, n // 4)), str(seed * 7001 + k * 101), str(N), str(mask), str(work)])       # (runs with 5-8 callers are several times longer)
     for k, (N, kind) in enumerate(ets):
         tf = os.path.join(vlib.BUILD, 'traces', 'c19-ets-%d-%d.ndjson' % (os.getpid(), k)); tfs.append(tf); kinds.append('ets')
-        cmds.append([exe, 'ets', tf, str(n), str(seed * 7001 + k * 103), str(N), kind])
+        cmds.append([exe, 'ets', tf, str(n if N <= 5 else max(60, n // 3)), str(seed * 7001 + k * 103), str(N), kind])
     ps = vlib.run_parallel(cmds, timeout=2500)
     ex = {'once': [], 'ets': []}; steps = 0; nexec = 0
     for p, tf, kd, c in zip(ps, tfs, kinds, cmds):
